@@ -28,15 +28,23 @@ def make(cfg):
         prog = mpslib.gen_mps_program(rng, small=True)
         specs = {'params_bit': pc.params_bit, 'ops_bit': pc.ops_bit}
         pc_ = kind == 'mps-channel'
+        alt_spec = {'params_bit': pc.ops_bit, 'ops_bit': pc.params_bit}
+        extra = {}
+        if cfg.get('mps_exclude'):
+            # a layer the NAS does not optimise (excluded by name): under full_cost it contributes
+            # a constant cost; plain params/ops metrics, which are defined for un-quantized layers
+            convs = [op['name'] for op in prog['ops'] if op['op'] == 'conv' and not op.get('reuse')]
+            extra['exclude_names'] = (rng.choice(convs),)
+            specs = {'params': pc.params, 'ops': pc.ops}
+            alt_spec = {'params': pc.params_no_bias, 'ops': pc.ops_no_bias}
         model, nas, _ = mpslib.convert_mps(
             prog, cfg['seed'], tuple(cfg.get('w_prec', (0, 2, 4, 8) if pc_ else (2, 4, 8))),
             tuple(cfg.get('a_prec', (2, 4, 8))), per_channel=pc_, cost=specs,
             temperature=cfg.get('temperature', 1.0), gumbel=cfg.get('gumbel', False),
             hard=cfg.get('hard', False), disable_sampling=cfg.get('disable_sampling', False),
-            train_mode=cfg.get('train', True), full_cost=cfg.get('full_cost', False))
+            train_mode=cfg.get('train', True), full_cost=cfg.get('full_cost', False), extra=extra)
         xs = [mpslib.in_range_inputs(prog, cfg['seed'] + 11, 3)]
-        names = ['params_bit', 'ops_bit']
-        alt_spec = {'params_bit': pc.ops_bit, 'ops_bit': pc.params_bit}
+        names = list(specs)
     elif kind == 'supernet':
         prog = snlib.gen_sn_desc(rng, max_branches=4)
         prog['gumbel'] = cfg.get('gumbel', False)
